@@ -19,6 +19,7 @@ import (
 	"sort"
 	"strings"
 	"sync"
+	"syscall"
 	"testing"
 	"time"
 )
@@ -35,6 +36,9 @@ type raceResp struct {
 }
 
 const respPrefix = "C13RESP "
+
+// hangLimit: a program takes microseconds; a worker silent for this long is hung.
+const hangLimit = 15 * time.Second
 
 var perms = map[int][][]int{
 	1: {{0}},
@@ -234,9 +238,17 @@ func (r *raceRunner) run(rq raceReq) raceOutcome {
 			code = 0
 		}
 		return raceOutcome{died: true, exitCode: code, stderr: ch.stderr.String()}
-	case <-time.After(120 * time.Second):
-		ch.cmd.Process.Kill()
-		ch.cmd.Wait()
+	case <-time.After(hangLimit):
+		// no answer: ask the runtime for a goroutine dump (SIGQUIT), then make sure it is gone
+		ch.cmd.Process.Signal(syscall.SIGQUIT)
+		done := make(chan struct{})
+		go func() { ch.cmd.Wait(); close(done) }()
+		select {
+		case <-done:
+		case <-time.After(10 * time.Second):
+			ch.cmd.Process.Kill()
+			<-done
+		}
 		r.ch = nil
 		return raceOutcome{timeout: true, stderr: ch.stderr.String()}
 	}
@@ -314,4 +326,54 @@ func raceSig(funcs []string) (string, bool) {
 	s := append([]string{}, funcs...)
 	sort.Strings(s)
 	return "C13|data-race|" + strings.Join(s, "+"), true
+}
+
+var reGoroutineHdr = regexp.MustCompile(`^goroutine \d+ [^\[]*\[([^\]]*)\]:`)
+
+// blockedInEnvLocks looks at a SIGQUIT goroutine dump and returns a description of the
+// goroutines that are blocked acquiring a sync mutex from inside package env.
+func blockedInEnvLocks(dump string) []string {
+	var out []string
+	for _, g := range strings.Split(dump, "\n\n") {
+		lines := strings.Split(strings.TrimSpace(g), "\n")
+		if len(lines) == 0 {
+			continue
+		}
+		m := reGoroutineHdr.FindStringSubmatch(lines[0])
+		if m == nil {
+			continue
+		}
+		st := m[1]
+		if k := strings.Index(st, ","); k >= 0 {
+			st = st[:k]
+		}
+		if !strings.HasPrefix(st, "sync.") && st != "semacquire" {
+			continue
+		}
+		var lockFn, envFn string
+		for _, l := range lines[1:] {
+			if strings.HasPrefix(l, "\t") {
+				continue
+			}
+			if lockFn == "" && strings.HasPrefix(l, "sync.(*") {
+				lockFn = l[:strings.LastIndex(l, "(")]
+			}
+			if envFn == "" && strings.HasPrefix(l, envPkg) {
+				envFn = l[len(envPkg):strings.LastIndex(l, "(")]
+			}
+		}
+		if envFn != "" && lockFn != "" && !strings.Contains(envFn, "Verif") {
+			out = append(out, envFn+" blocked in "+lockFn)
+		} else if envFn != "" && lockFn != "" {
+			// innermost env frame is the wrapper: find the next env frame
+			for _, l := range lines[1:] {
+				if strings.HasPrefix(l, envPkg) && !strings.Contains(l, "Verif") {
+					out = append(out, l[len(envPkg):strings.LastIndex(l, "(")]+" blocked in "+lockFn)
+					break
+				}
+			}
+		}
+	}
+	sort.Strings(out)
+	return out
 }
